@@ -602,7 +602,8 @@ func frameFormula(vc *VC, oldT, newT, frontier string, mt modTarget) string {
 	}
 	vc.nfresh++
 	r := fmt.Sprintf("q!r!%d", vc.nfresh)
-	conds := []string{"(<= 0 " + r + ")", "(<= " + r + " " + frontier + ")"}
+	// reference 0 is nil / the empty region: it holds no cells, so frames range over 1..frontier
+	conds := []string{"(< 0 " + r + ")", "(<= " + r + " " + frontier + ")"}
 	for _, x := range mt.refs {
 		conds = append(conds, "(distinct "+r+" "+x+")")
 	}
